@@ -259,7 +259,18 @@ pub fn make_world(core: &mut Core, cfg: &Config, seed: u64) -> RtWorld {
         first_delivery_frontier: None,
         max_requests: if cfg.cap_virtual_s > 100 * 3600 { 600_000 } else { 40_000 },
         request_budget_exceeded: false,
+        lost: Default::default(),
     };
+    // lost uploads below the start position: the start-up listing has holes (the newest chunk
+    // present is still the last one listed)
+    if cfg.k0 >= 3 && seed % 7 == 3 {
+        let span = cfg.k0 as u64 - 2;
+        w.lost.insert((0, 2 + ((seed / 7) % span) as usize));
+        if (seed / 49) % 2 == 1 {
+            w.lost.insert((0, 2 + ((seed / 98) % span) as usize));
+        }
+        core.ctx.count("hole_in_startup_listing");
+    }
     // generation 0: k0 chunks already visible, stamped in the recent past
     let step = [4_000i64, 7_000, 11_000][(seed % 3) as usize];
     let start = ((s3sim::EPOCH_MS - 2_000 - step * (cfg.k0 as i64 - 1)) / 1000) * 1000;
